@@ -713,7 +713,7 @@ _dist = Counter()
 
 def generate(tier, seed):
     rng = random.Random(seed)
-    n_chains = 260 if tier == "quick" else 1500
+    n_chains = 400 if tier == "quick" else 1800
     uidc = [0]
     cases, props = [], []
     _dist.clear()
